@@ -305,6 +305,7 @@ pub fn c03(rep: &mut Report) {
         agg
     });
     rep.agg.merge(a);
+    edited_files_leg(rep);
     crate::clilegs::run(rep, crate::clilegs::Which::C03, false);
     crate::clilegs::run(rep, crate::clilegs::Which::C03, true);
     let ev = rep.agg.get("l0_pairs") + rep.agg.get("l1_scenarios") + rep.agg.get("cli_scenarios") + rep.agg.get("cli_blockdev_scenarios");
@@ -315,6 +316,81 @@ pub fn c03(rep: &mut Report) {
     rep.set("rule", json!(format!("L0: all (prior layout, target) pairs with <= {n0} chunks over 3 identities (+junk, +gap) and all 27 size assignments from {{1,2,3}}, real strip/reorder_ops/reorder_in_place/feed on an instrumented device; L1: full library flow (real chunker scans the prior output) for all sources of <= {n1} words x all prior outputs of <= {n1} letters over words/junk/half word/colliding junk, per universe and hash length; distinct_nontrivial = distinct device operation logs (read/write sequences) observed; CLI leg: the real clone_cmd --seed-output on files (and through the block device path, hook H1) for sources/priors of <= 2/3 letters, local and HTTP archives")));
     rep.assume("A1: no truncated-hash collision inside a scenario (asserted per scenario)");
     rep.assume("chunk counts above the bounds and data outside the word alphabets are not covered");
+}
+
+/// Supplementary (pseudo-random, not exhaustive): larger layouts obtained by real
+/// content-defined chunking of edited files - block inserts, deletes, moves, duplications.
+fn edited_files_leg(rep: &mut Report) {
+    let thorough = rep.thorough();
+    let cfgs = [Cfg::new(Algo::Roll, 16, 64, 1024, 7), Cfg::new(Algo::Buz, 16, 48, 768, 6), Cfg::fixed(256)];
+    let pairs = if thorough { 400 } else { 40 };
+    let seed0 = rep.seed;
+    let a = par_shards(cfgs.len() * pairs, threads(), |k| {
+        let cfg = cfgs[k % cfgs.len()];
+        let mut agg = Agg::default();
+        let rt = new_rt();
+        let mut x: u64 = 0x9E3779B97F4A7C15 ^ (k as u64 * 1_000_003) ^ seed0;
+        let mut rnd = move || {
+            x ^= x << 13;
+            x ^= x >> 7;
+            x ^= x << 17;
+            x
+        };
+        let n = 20_000 + (rnd() % 30_000) as usize;
+        // source: random bytes (no zero runs, so that the BuzHash quirk class F5 is not entered)
+        let source: Vec<u8> = (0..n).map(|_| 1 + (rnd() % 255) as u8).collect();
+        // prior: the source after a few edits
+        let mut prior = source.clone();
+        for _ in 0..(1 + rnd() % 6) {
+            let len = prior.len();
+            if len < 2000 {
+                break;
+            }
+            let a0 = (rnd() as usize) % (len - 1000);
+            let l = 1 + (rnd() as usize) % 900;
+            match rnd() % 5 {
+                0 => {
+                    let ins: Vec<u8> = (0..l).map(|_| 1 + (rnd() % 255) as u8).collect();
+                    prior.splice(a0..a0, ins);
+                }
+                1 => {
+                    prior.drain(a0..a0 + l);
+                }
+                2 => {
+                    let blk: Vec<u8> = prior.drain(a0..a0 + l).collect();
+                    let to = (rnd() as usize) % prior.len();
+                    prior.splice(to..to, blk);
+                }
+                3 => {
+                    let blk: Vec<u8> = prior[a0..a0 + l].to_vec();
+                    let to = (rnd() as usize) % prior.len();
+                    prior.splice(to..to, blk);
+                }
+                _ => {
+                    let half = prior.len() / 2;
+                    prior.rotate_left(half);
+                }
+            }
+        }
+        let arch = match build_arch(&rt, &cfg, if k % 2 == 0 { 64 } else { 8 }, &Comp::None, &source, 4) {
+            Ok(a) => a,
+            Err(e) => machinery(e),
+        };
+        let sc = Scenario { prior: Some(prior), seed_output: true, seeds: vec![], fault: Fault::None, verify_output: false };
+        let obs = run_scenario(&arch, &sc);
+        agg.add("edited_file_pairs", 1);
+        let reads = obs.log.iter().filter(|o| matches!(o, Op::Read { .. })).count();
+        agg.add("edited_file_reorder_reads", reads as u64);
+        match &obs.outcome {
+            Outcome::Ok if obs.dev == arch.source => {}
+            Outcome::Ok => agg.viol("success-with-wrong-output", || json!({"leg": "edited-files", "cfg": cfg.json(), "pair_index": k, "seed": seed0})),
+            Outcome::Panic(p) => agg.viol(&format!("panic@{}", panic_site(p)), || json!({"leg": "edited-files", "cfg": cfg.json(), "pair_index": k, "seed": seed0, "panic": p})),
+            o => agg.viol("valid-clone-failed", || json!({"leg": "edited-files", "cfg": cfg.json(), "pair_index": k, "seed": seed0, "outcome": format!("{:?}", o)})),
+        }
+        oracle_reads_intact(&arch, &sc, &obs, &mut agg);
+        agg
+    });
+    rep.agg.merge(a);
 }
 
 // ------------------------------------------------------------------ C02
@@ -493,6 +569,24 @@ pub fn c13(rep: &mut Report) {
 
 pub fn replay(pid: &str, v: &Value) -> bool {
     let mut agg = Agg::default();
+    if v.get("leg").and_then(|l| l.as_str()) == Some("edited-files") {
+        let mut rep = Report::new(pid, "exploration", "quick", v["seed"].as_u64().unwrap_or(0));
+        edited_files_leg(&mut rep);
+        return !rep.agg.classes.is_empty();
+    }
+    if v.get("leg").and_then(|l| l.as_str()).map(|l| l.starts_with("cli")) == Some(true) {
+        let mut rep = Report::new(pid, "exploration", "quick", 0);
+        let which = match pid {
+            "C02" => crate::clilegs::Which::C02,
+            "C03" => crate::clilegs::Which::C03,
+            _ => crate::clilegs::Which::C06,
+        };
+        crate::clilegs::run(&mut rep, which, v["leg"].as_str() == Some("cli-blockdev"));
+        for (k, c) in &rep.agg.classes {
+            println!("replay: class={} count={}", k, c.count);
+        }
+        return !rep.agg.classes.is_empty();
+    }
     if v.get("level").and_then(|l| l.as_str()) == Some("L0") {
         // re-run the whole L0 family of that size and look for the same case (cheap)
         let n = v["target"].as_array().unwrap().len().max(v["prior"].as_array().unwrap().len());
